@@ -46,12 +46,18 @@ package fox
 //@ func (*Router).ServeHTTP props C08,C11,C12,C17 partial
 //@   requires fox != nil && r != nil && r.URL != nil && published[&fox.tree] != nil
 //@   requires fresh-writer: wFinal[w] == 0 && wBody[w] == 0
-//@   modifies heap, hCalls, wFinal, wFirst, wInfo, wBody, wFlush, wHijack, hFn, hRoute, hTsr, hScope, hNParams, hReq, sbLen, unlockedLoads
+//@   modifies heap, hCalls, wFinal, wFirst, wInfo, wBody, wFlush, wHijack, hFn, hRoute, hTsr, hScope, hNParams, hReq, sbLen, unlockedLoads, released
 //@   assume-at call (*cTx).reset#1 : pool-discipline: c != nil && c.params != nil && c.tsrParams != nil && c.skipNds != nil
 //@   ensures @C06 nolock: held[&fox.mu] == old(held[&fox.mu]) && lockOps[&fox.mu] == old(lockOps[&fox.mu]) && pubCount[&fox.tree] == old(pubCount[&fox.tree])
 //@   ensures @C05,C06 one-load: unlockedLoads[&fox.tree] == old(unlockedLoads[&fox.tree]) + (held[&fox.mu] ? 0 : 1)
 //@   assert-at call call#1 : @C16 noalloc-direct: nextref == old(nextref)
 //@   assert-at call call#2 : @C16 noalloc-ignore-tsr: nextref == old(nextref)
+//@   assert-at call call#1 : @C12 live-context: !released[arg_c]
+//@   assert-at call call#2 : @C12 live-context: !released[arg_c]
+//@   assert-at call call#3 : @C12 live-context: !released[arg_c]
+//@   assert-at call call#4 : @C12 live-context: !released[arg_c]
+//@   assert-at call call#5 : @C12 live-context: !released[arg_c]
+//@   assert-at call call#6 : @C12 live-context: !released[arg_c]
 //@   ensures one-handler: hCalls == old(hCalls) + 1
 //@   ensures request: hReq == r
 //@   ensures direct: old(isDirect(fox, r)) ==> hFn == old(sn(fox, r).route.hall) && hRoute == old(sn(fox, r).route) && !hTsr && hScope == RouteHandler
